@@ -863,13 +863,20 @@ where
     A: ArrayValidExt + ArrayFromDataExt,
 {
     assert_eq!(a.len(), b.len());
+    // the THEN branch is taken where the condition is TRUE (valid and true); everywhere else (FALSE or NULL)
+    // the ELSE branch is taken, and the result is NULL exactly where the taken branch is NULL
+    let cond_true: BitVec = s
+        .raw_iter()
+        .zip(s.get_valid_bitmap().iter())
+        .map(|(v, ok)| *v && *ok)
+        .collect();
     let it = a
         .raw_iter()
         .zip(b.raw_iter())
-        .zip(s.raw_iter())
-        .map(|((a, b), s)| if *s { a } else { b });
-    let mut valid = s.get_valid_bitmap().and(a.get_valid_bitmap());
-    valid.or(&s.get_valid_bitmap().not_then_and(b.get_valid_bitmap()));
+        .zip(cond_true.iter())
+        .map(|((a, b), c)| if *c { a } else { b });
+    let mut valid = cond_true.and(a.get_valid_bitmap());
+    valid.or(&cond_true.not_then_and(b.get_valid_bitmap()));
     A::from_data(it, valid)
 }
 
